@@ -671,3 +671,126 @@ func r179(c *Ctx, r *R) {
 		r.Und("shutdown-marks", token.NoPos, "no Shutdown method with a shutdown flag found")
 	}
 }
+
+func init() {
+	register(&Rule{ID: "R13.13", Props: []string{"C13", "C08", "C01"}, Floor: 1, Title: "a shard pin refers to the previous shard only when there is one: shard.Flush stores Reference under a test that the previous CID is defined (the address of an undefined CID encodes as an empty string that no decoder accepts: the raft log entry of shard 0 cannot be applied)", Run: r1313})
+	register(&Rule{ID: "R01.9", Props: []string{"C01", "C14", "C08"}, Floor: 2, Title: "dsstate.Unmarshal refuses what is not a serialized state before it changes anything: the first Decode precedes every Delete, and every Put is reached only past a test of the entry's key (go-libp2p-raft hands undecodable log entries to Unmarshal as would-be rollbacks)", Run: r019})
+}
+
+func r1313(c *Ctx, r *R) {
+	f := c.fn(r, "adder/sharding", "shard.Flush")
+	if f == nil {
+		return
+	}
+	defined := func(g Guard) bool {
+		if gCall(g, true, "go-cid.Cid).Defined") {
+			return true
+		}
+		// prev != cid.Undef / !prev.Equals(cid.Undef)
+		return gCall(g, false, "go-cid.Cid).Equals")
+	}
+	n := 0
+	instrsDeep(f, func(i ssa.Instruction) {
+		st, ok := i.(*ssa.Store)
+		if !ok {
+			return
+		}
+		fl, _ := fieldOfAddrValue(st.Addr)
+		if fl == nil || fl.Name() != "Reference" {
+			return
+		}
+		n++
+		// a reference built from the `previous shard` parameter
+		r.Check(isNilConst(st.Val) || guardedBy(st.Block(), defined), "shard-reference:defined-only", st.Pos(), "the reference to the previous shard is set only when that CID is defined", "shard.Flush stores a reference to the previous shard without testing that there is one: for shard 0 the pin carries the address of cid.Undef, which is encoded as an empty string and cannot be decoded again - in Raft mode the committed log entry is undecodable on every replica and the shard is in no pinset although LogPin succeeded")
+	})
+	if n == 0 {
+		r.Und("shard-reference", f.Pos(), "shard.Flush sets no Reference: shape not recognised")
+	}
+}
+
+func r019(c *Ctx, r *R) {
+	f := c.fn(r, "state/dsstate", "State.Unmarshal")
+	if f == nil {
+		return
+	}
+	decs := findCallsDeep(f, "codec.Decoder).Decode")
+	for _, ci := range callsIn(f) {
+		// a helper of the package that decodes one entry
+		if h := ci.Common().StaticCallee(); h != nil && h.Blocks != nil && h.Pkg == f.Pkg && len(findCalls(h, false, "codec.Decoder).Decode")) > 0 {
+			decs = append(decs, deepCall{Outer: ci, Inner: ci})
+		}
+	}
+	dels := findCallsDeep(f, "go-datastore.Write).Delete")
+	puts := findCallsDeep(f, "go-datastore.Write).Put")
+	if len(decs) == 0 || len(dels) == 0 || len(puts) == 0 {
+		r.Und("unmarshal", f.Pos(), "Unmarshal: decode, delete or put not found")
+		return
+	}
+	// (i) some Decode precedes every Delete
+	okFirst := true
+	for _, d := range dels {
+		some := false
+		for _, dc := range decs {
+			if dc.Outer.Parent() == d.Outer.Parent() && dc.Outer != d.Outer && dominatesInstr(dc.Outer, d.Outer) {
+				some = true
+			}
+		}
+		if !some {
+			okFirst = false
+		}
+	}
+	r.Check(okFirst, "unmarshal:decodes-before-deleting", dels[0].Inner.Pos(), "nothing is deleted before the input was looked at", "dsstate.Unmarshal deletes the existing pins before it has decoded anything: a log entry that go-libp2p-raft tries as a rollback (any entry it cannot decode as an operation) wipes the pinset of every replica")
+	// (ii) every Put stands behind a test of the entry's key
+	keyTested := func(g Guard) bool {
+		x, k, _, isEq := eqConst(g.Cond)
+		if isEq && k.Kind() == constant.String && constant.StringVal(k) == "" {
+			fl, _ := fieldLoad(x)
+			return fl != nil && fl.Name() == "Key"
+		}
+		if y, _, kv, isCmp := cmpIntConst(g.Cond); isCmp && kv == 0 {
+			if lc, _ := originCallLocal(y); lc != nil && callName(lc.Common()) == "builtin.len" {
+				fl, _ := fieldLoad(lc.Common().Args[0])
+				return fl != nil && fl.Name() == "Key"
+			}
+		}
+		return false
+	}
+	// ... directly, or inside the helper that decodes an entry: the Put
+	// runs only where that helper's error was tested nil, and the helper
+	// answers nil only past the test
+	viaHelper := func(b *ssa.BasicBlock) bool {
+		return guardedBy(b, func(g Guard) bool {
+			if g.Derived {
+				return false
+			}
+			return gNil(g, false, func(v ssa.Value) bool {
+				leaves := phiLeaves(v)
+				if len(leaves) == 0 {
+					return false
+				}
+				for _, lf := range leaves {
+					call, idx := originCallLocal(lf)
+					if call == nil {
+						return false
+					}
+					h := call.Common().StaticCallee()
+					if h == nil || h.Blocks == nil || h.Pkg != f.Pkg || idx != h.Signature.Results().Len()-1 {
+						return false
+					}
+					if len(findCalls(h, false, "codec.Decoder).Decode")) == 0 {
+						return false
+					}
+					for _, rl := range returnLeaves(h, idx) {
+						if isNilConst(rl.Val) && !rl.GuardedBy(keyTested) && !mustPass(rl.Block, keyTested) {
+							return false
+						}
+					}
+				}
+				return true
+			})
+		})
+	}
+	for _, p := range puts {
+		r.Check(mustPass(p.Outer.Block(), keyTested) || viaHelper(p.Outer.Block()), "unmarshal:key-tested", p.Inner.Pos(), "an entry is stored only after its key was tested", "dsstate.Unmarshal stores entries without testing that they have a key: any msgpack map decodes into an entry with an empty key, so input that is no snapshot is accepted and an empty value lands on the namespace key itself (PinGet(cid.Undef) then finds a pin of type 0)")
+	}
+}
